@@ -1,4 +1,49 @@
-/- C16 — placeholder until the theorems are in; not claimed in MANIFEST.json while this comment stands. -/
-import ScpiVerif.Model.Result
+/-
+C16 — Floating-point text keeps the promised number of significant digits.
+Property theorems only; helper lemmas in ScpiVerif/Lemmas/Dtostre.lean.
+
+PARTIAL (DESIGN.md section 7/C16): what is proved is the string-assembly stage of the library's own
+formatter (SCPI_dtostre): whatever digits and decimal exponent the digit generator hands over, the
+assembled text denotes exactly that value — the point and the exponent are placed correctly and only
+trailing zeros are dropped — and fits the 32-byte scratch buffer.  The digit generator (scpi_ecvt,
+C double arithmetic) and the printf build (snprintf of the C library) are not proved: they are judged
+on every run against the exact rational value of the bit pattern (testing).  Known finding: the
+digit generator accumulates rounding error over hundreds of multiplications by ten, so at 14-15
+requested digits and extreme exponents the last digit can be off by more than one unit.
+-/
+import ScpiVerif.Model.Dtostre
+import ScpiVerif.Spec.Float
+import ScpiVerif.Gen.Tables
+import ScpiVerif.Lemmas.Dtostre
+
 namespace ScpiVerif.Props.C16
+open ScpiVerif ScpiVerif.Lexer ScpiVerif.Dtostre
+
+def isDigits (ds : Bytes) : Prop := ∀ b ∈ ds, 48 ≤ b ∧ b ≤ 57
+
+/-- the assembled text is a decimal literal whose value is exactly 0.d1…dprec × 10^decpt, for every
+precision 1..15, every digit string of that length with a non-zero first digit and every decimal
+exponent in the double range -/
+theorem assemble_value (prec : Nat) (hp : 1 ≤ prec ∧ prec ≤ 15) (ds : Bytes) (hl : ds.length = prec)
+    (hd : isDigits ds) (hnz : ds.head? ≠ some 48) (decpt : Int) (hr : -330 ≤ decpt ∧ decpt ≤ 310) :
+    ∃ num den, Spec.Float.litValue (assemble prec ds decpt) = some (false, num, den) ∧ den ≠ 0 ∧
+      (if decpt ≥ prec then num = digitsValue ds * 10^(decpt - prec).toNat * den
+       else num * 10^((prec : Int) - decpt).toNat = digitsValue ds * den) :=
+  Lemmas.Dtostre.assemble_value prec hp ds hl hd hnz decpt hr
+
+/-- zero: all digits '0' with decpt = 0 is printed as "0" -/
+theorem assemble_zero (prec : Nat) (hp : 1 ≤ prec ∧ prec ≤ 15) :
+    assemble prec (List.replicate prec 48) 0 = [48] := Lemmas.Dtostre.assemble_zero prec hp
+
+/-- with any sign prefix the text fits the scratch buffer of SCPI_dtostre, NUL included -/
+theorem assemble_fits (prec : Nat) (hp : 1 ≤ prec ∧ prec ≤ 15) (ds : Bytes) (hl : ds.length = prec)
+    (decpt : Int) (hr : -330 ≤ decpt ∧ decpt ≤ 310) (neg nan : Bool) (flags : Nat) :
+    (signPrefix neg nan flags ++ assemble prec ds decpt).length + 1 ≤ Gen.dtostreBuf :=
+  Lemmas.Dtostre.assemble_fits prec hp ds hl decpt hr neg nan flags
+
+-- non-vacuity: 0.000870507 with 7 digits (the case the unrepaired code printed as 0.00087), 1234.6, 1e+300
+example : assemble 7 [56,55,48,53,48,55,48] (-3) = "0.000870507".toUTF8.toList := by decide +kernel
+example : assemble 5 [49,50,51,52,54] 4 = "1234.6".toUTF8.toList := by decide +kernel
+example : assemble 15 (49 :: List.replicate 14 48) 301 = "1e+300".toUTF8.toList := by decide +kernel
+
 end ScpiVerif.Props.C16
